@@ -3,7 +3,10 @@
 # prints: APPLY ok|fail, DEMO_WITH fail|pass, SUITE pass|fail(n), DEMO_WITHOUT pass|fail
 set -u
 D="$1"; K="$2"; ID="$(basename "$D")-$K"
-WT="/tmp/cs-$ID"
+WT="${CS_WT:-/tmp/cs-$ID}"
+# a private, initially empty disk cache: flexparser caches parsed definition files by content under ~/.cache/pint and
+# remembers absolute import paths, so entries written from another (deleted) worktree would poison this run
+export XDG_CACHE_HOME="/tmp/cs-$ID.cache"; rm -rf "$XDG_CACHE_HOME"; mkdir -p "$XDG_CACHE_HOME"
 rm -rf "$WT"; git -C /repo worktree remove --force "$WT" 2>/dev/null
 git -C /repo worktree add -q --detach "$WT" HEAD || exit 2
 cd "$WT"
@@ -19,3 +22,4 @@ git checkout -q -- .
 PYTHONPATH="$WT" timeout 300 /venv/bin/python "$D/seed${K}_demo.py" >/tmp/cs-$ID.demo2 2>&1; r2=$?
 [ $r2 -eq 0 ] && echo "DEMO_WITHOUT pass(expected)" || echo "DEMO_WITHOUT fail(UNEXPECTED) rc=$r2"
 cd /; git -C /repo worktree remove --force "$WT"
+rm -rf "/tmp/cs-$ID.cache"
